@@ -626,6 +626,7 @@ theorem bidInv_step : StepInv (FramerEnv (τ := τ)) BidInv where
       exact hi.written x (by rw [hr]; exact List.mem_cons_of_mem _ hx)
   advance := fun s hi => ⟨hi.desire, hi.trace, hi.written⟩
   halfAdvance := fun s hi => ⟨hi.desire, hi.trace, hi.written⟩
+  clear := fun s hi => ⟨hi.desire, hi.trace, fun e he => by simp at he⟩
 
 theorem addReady_world (s : St τ (World τ)) (i : Nat) :
     (addReadyTask FramerEnv s i).world =
@@ -716,6 +717,7 @@ theorem slaveInv_step (D : List Nat) (st0 : Nat → Status) : StepInv (FramerEnv
     exact ⟨fun x hx => hi.ready x (by rw [hr]; exact List.mem_cons_of_mem _ hx), h1, h2, h3⟩
   advance := fun s hi => ⟨hi.ready, hi.status, hi.norecv, hi.fiats⟩
   halfAdvance := fun s hi => ⟨hi.ready, hi.status, hi.norecv, hi.fiats⟩
+  clear := fun s hi => ⟨fun e he => by simp at he, hi.status, hi.norecv, hi.fiats⟩
 
 theorem slaveInv_addReady (D : List Nat) (st0 : Nat → Status) (s : St τ (World τ)) (i : Nat) (hD : i ∈ D)
     (hi : SlaveInv D st0 s) : SlaveInv D st0 (addReadyTask FramerEnv s i) := by
